@@ -1,0 +1,32 @@
+//go:build verif
+
+package parser
+
+import "unsafe"
+
+// Exports for the verification harness (/verif, property C07). Compiled only with `-tags verif`;
+// adds no behaviour. Written against the operations of the lexer-state map, not its concrete type.
+
+// VerifLexerStateCount reports how many lexers currently own an entry in the process-global
+// lexer-state map. It is 0 whenever no parse is in progress: every parse deletes its entry when it ends.
+func VerifLexerStateCount() int {
+	var m interface{} = lexerStates
+	switch x := m.(type) {
+	case interface{ Len() int }:
+		return x.Len()
+	case interface {
+		Range(func(key, value interface{}) bool)
+	}:
+		n := 0
+		x.Range(func(_, _ interface{}) bool { n++; return true })
+		return n
+	}
+	return -1 << 30
+}
+
+// VerifLexerStateID looks the state of l up exactly as the lexer does for every token (creating it on
+// first use) and returns the identity of the state object: two calls for one live lexer with no
+// DeleteLexerState in between must return the same value.
+func VerifLexerStateID(l *SyslLexer) uintptr {
+	return uintptr(unsafe.Pointer(ls(l)))
+}
